@@ -94,18 +94,21 @@ type c17Names struct {
 }
 
 type c17Case struct {
-	fixed   *c17Names // replay: use exactly these names
-	kind    string    // scan | hscan | sscan
-	size    int
-	count   int
-	script  string // none grow shrink grow-shrink-grow churn
-	match   string
-	typ     string
-	adverse int // shared low hash bits (0 = random names)
+	fixed    *c17Names // replay: use exactly these names
+	kind     string    // scan | hscan | sscan
+	size     int
+	count    int
+	script   string // none grow shrink grow-shrink-grow churn
+	match    string
+	typ      string
+	adverse  int    // shared low hash bits (0 = random names)
+	dead     string // scan only: how keys are removed: del | unlink | expire | mixed (unlinked and expired keys linger in the table)
+	prechurn int    // add+remove cycles of temporary names before the iteration (ages the table's removal bookkeeping)
+	spread   bool   // mutation phases spread over the whole iteration instead of the first calls
 }
 
 func (c c17Case) String() string {
-	return fmt.Sprintf("%s size=%d COUNT=%d script=%s match=%q type=%q adversarial=%d", c.kind, c.size, c.count, c.script, c.match, c.typ, c.adverse)
+	return fmt.Sprintf("%s size=%d COUNT=%d script=%s match=%q type=%q adversarial=%d removal=%s prechurn=%d spread=%v", c.kind, c.size, c.count, c.script, c.match, c.typ, c.adverse, c.dead, c.prechurn, c.spread)
 }
 
 func c17Run(r *verdict.Run, e *emu, cs c17Case, rng *rand.Rand) {
@@ -172,12 +175,24 @@ func c17Run(r *verdict.Run, e *emu, cs c17Case, rng *rand.Rand) {
 		}
 		return []string{"SET", el, val}
 	}
+	delSeq := 0
 	delCmd := func(el string) []string {
 		switch cs.kind {
 		case "hscan":
 			return []string{"HDEL", coll, el}
 		case "sscan":
 			return []string{"SREM", coll, el}
+		}
+		mode := cs.dead
+		if mode == "mixed" {
+			mode = []string{"del", "unlink", "expire"}[delSeq%3]
+			delSeq++
+		}
+		switch mode {
+		case "unlink":
+			return []string{"UNLINK", el}
+		case "expire":
+			return []string{"PEXPIREAT", el, "1"} // the deadline has passed: the key is gone for every command
 		}
 		return []string{"DEL", el}
 	}
@@ -210,7 +225,32 @@ func c17Run(r *verdict.Run, e *emu, cs c17Case, rng *rand.Rand) {
 	for _, el := range volatilePre {
 		setup = append(setup, addCmd(el, "pv"))
 	}
+	// keys that are already dead (unlinked / expired) when the iteration starts: they linger in the table
+	var deadBefore []string
+	if cs.kind == "scan" && cs.dead != "" && cs.dead != "del" {
+		for i := 0; i < 3+cs.size/8; i++ {
+			el := fmt.Sprintf("dead:%d", i)
+			deadBefore = append(deadBefore, el)
+			setup = append(setup, addCmd(el, "dv"))
+		}
+	}
 	if !batch(setup) {
+		return
+	}
+	var pre [][]string
+	for i := 0; i < cs.prechurn; i++ {
+		el := fmt.Sprintf("tmp:%d", i%7)
+		pre = append(pre, addCmd(el, "tv"))
+		if cs.kind == "scan" {
+			pre = append(pre, []string{"DEL", el})
+		} else {
+			pre = append(pre, delCmd(el))
+		}
+	}
+	for _, el := range deadBefore {
+		pre = append(pre, delCmd(el))
+	}
+	if !batch(pre) {
 		return
 	}
 	// mutation plan: a list of phases, each applied between two SCAN calls
@@ -266,6 +306,11 @@ func c17Run(r *verdict.Run, e *emu, cs c17Case, rng *rand.Rand) {
 	bound := 4*maxPresent/cs.count + 64 + len(plan)
 	seenAfterMutations := map[string]bool{}
 	var cursors []string
+	planIdx, stride := 0, 1
+	if cs.spread && len(plan) > 0 {
+		stride = 1 + (len(stable)+len(volatilePre))/cs.count/(len(plan)+1)
+	}
+	bound += len(plan) * stride
 	for {
 		args := []string{}
 		switch cs.kind {
@@ -314,9 +359,12 @@ func c17Run(r *verdict.Run, e *emu, cs c17Case, rng *rand.Rand) {
 		if cursor == "0" {
 			break
 		}
-		if calls-1 < len(plan) {
-			if !batch(plan[calls-1]) {
-				return
+		if planIdx < len(plan) {
+			if (calls-1)%stride == 0 {
+				if !batch(plan[planIdx]) {
+					return
+				}
+				planIdx++
 			}
 		} else {
 			// the collection no longer changes: the iteration must end within the bound and never repeat a cursor
@@ -335,7 +383,7 @@ func c17Run(r *verdict.Run, e *emu, cs c17Case, rng *rand.Rand) {
 	r.Count("scan_calls", int64(calls))
 	// oracle
 	rep := map[string]any{"case": cs.String(), "calls": calls, "cursors": cursors,
-		"case_fields": map[string]any{"kind": cs.kind, "size": cs.size, "count": cs.count, "script": cs.script, "match": cs.match, "type": cs.typ, "adverse": cs.adverse},
+		"case_fields": map[string]any{"kind": cs.kind, "size": cs.size, "count": cs.count, "script": cs.script, "match": cs.match, "type": cs.typ, "adverse": cs.adverse, "dead": cs.dead, "prechurn": cs.prechurn, "spread": cs.spread},
 		"names":       c17Names{stable, volatilePre, volatileNew, never}}
 	if len(cursors) > 400 {
 		rep["cursors"] = cursors[len(cursors)-400:]
@@ -371,6 +419,12 @@ func c17Run(r *verdict.Run, e *emu, cs c17Case, rng *rand.Rand) {
 		rep["probe_of_first_missing"] = cmdString(probe) + " -> " + pv.String()
 		r.Report("c17/stable-element-missed/"+cs.kind+"/"+cs.script, fmt.Sprintf("%s: %d elements that were present during the whole iteration were never returned, e.g. %q", cs, len(missing), missing[:min(3, len(missing))]), rep)
 	}
+	for _, el := range deadBefore {
+		if returned[el] > 0 {
+			r.Report("c17/dead-key-returned/"+cs.dead, fmt.Sprintf("%s: key %q had been removed (%s) before the iteration started but was returned", cs, el, cs.dead), rep)
+			break
+		}
+	}
 	known := map[string]bool{}
 	for _, l := range [][]string{stable, volatilePre, volatileNew} {
 		for _, el := range l {
@@ -379,6 +433,9 @@ func c17Run(r *verdict.Run, e *emu, cs c17Case, rng *rand.Rand) {
 	}
 	for el := range returned {
 		if cs.kind == "scan" && (el == coll) {
+			continue
+		}
+		if strings.HasPrefix(el, "dead:") {
 			continue
 		}
 		if !known[el] {
@@ -414,12 +471,16 @@ func c17Run(r *verdict.Run, e *emu, cs c17Case, rng *rand.Rand) {
 	if cs.typ != "" {
 		filt += "+type"
 	}
-	r.Distinct(fmt.Sprintf("%s/%s/size%d/count%d/%s/adv%d", cs.kind, cs.script, cs.size, cs.count, filt, cs.adverse))
+	churnClass := "fresh"
+	if cs.prechurn > 0 {
+		churnClass = "aged"
+	}
+	r.Distinct(fmt.Sprintf("%s/%s/size%d/count%d/%s/adv%d/%s/%s/spread=%v", cs.kind, cs.script, cs.size, cs.count, filt, cs.adverse, cs.dead, churnClass, cs.spread))
 }
 
 func checkC17(r *verdict.Run) {
-	r.Rule = "full iterations (cursor 0 -> ... -> 0, cursors fed back verbatim) of SCAN/HSCAN/SSCAN over collections of 0-3000 elements with COUNT in {1,2,7,10,100,10000}, with and without MATCH/TYPE, while the driver itself grows (several table doublings), shrinks (table halving), grows-shrinks-grows or churns the collection between calls; names random or chosen to share 10-16 low hash bits (long doubling chains). " +
-		"oracle (set arithmetic, no model of the cursor): returned >= stable elements matching the filter, nothing never-present or non-matching returned, HSCAN values were really held, termination within 4*(elements)/COUNT+64 calls and no cursor repeated after mutations stop. distinct = (command, script, size, COUNT, filter, adversarial bits)"
+	r.Rule = "full iterations (cursor 0 -> ... -> 0, cursors fed back verbatim) of SCAN/HSCAN/SSCAN over collections of 0-3000 elements with COUNT in {1,2,7,10,100,10000}, with and without MATCH/TYPE, while the driver itself grows (several table doublings), shrinks (table halving), grows-shrinks-grows or churns the collection between calls (during the first calls or spread over the iteration); names random or chosen to share 10-16 low hash bits (long doubling chains); keys removed by DEL, UNLINK or a passed deadline (the latter two leave dead keys in the table, some already dead when the iteration starts), on fresh tables and on tables aged by add/remove cycles. " +
+		"oracle (set arithmetic, no model of the cursor): returned >= stable elements matching the filter, nothing never-present, already dead or non-matching returned, HSCAN values were really held, termination within 4*(elements)/COUNT+64 calls and no cursor repeated after mutations stop. distinct = (command, script, size, COUNT, filter, adversarial bits)"
 	sizes := []int{0, 1, 5, 17, 100}
 	counts := []int{1, 2, 7, 10, 100, 10000}
 	if r.Tier == "thorough" {
@@ -486,6 +547,29 @@ func checkC17(r *verdict.Run) {
 			}
 		}
 	}
+	// second dimension: how elements die and how old the table is. Every base case is kept as it is (fresh table,
+	// DEL, mutations during the first calls) and repeated with removal modes that leave dead keys in the table
+	// (UNLINK, a passed deadline), with add/remove cycles before the iteration, and with the mutation phases spread
+	// over the whole iteration.
+	base := cases
+	variants := tierPick(r, 5, 12)
+	for _, c := range base {
+		if c.size == 0 {
+			continue
+		}
+		for v := 0; v < variants; v++ {
+			c2 := c
+			if c2.kind == "scan" {
+				c2.dead = []string{"unlink", "expire", "mixed", "del"}[rng0.Intn(4)]
+			}
+			c2.prechurn = []int{0, c.size/2 + 1, c.size + 3, 2*c.size + 9, 8, 16, 32, 64, rng0.Intn(4*c.size + 40)}[rng0.Intn(9)]
+			c2.spread = rng0.Intn(2) == 0
+			if c2.size >= 400 {
+				c2.prechurn = c2.prechurn % 200
+			}
+			cases = append(cases, c2)
+		}
+	}
 	if rp := os.Getenv("C17_REPLAY"); rp != "" {
 		// re-run the exact case (same names) recorded in a replay file
 		b, err := os.ReadFile(rp)
@@ -500,7 +584,8 @@ func checkC17(r *verdict.Run) {
 				f := doc.Replay.F
 				num := func(k string) int { v, _ := f[k].(float64); return int(v) }
 				str := func(k string) string { v, _ := f[k].(string); return v }
-				one := c17Case{fixed: &doc.Replay.N, kind: str("kind"), size: num("size"), count: num("count"), script: str("script"), match: str("match"), typ: str("type"), adverse: num("adverse")}
+				one := c17Case{fixed: &doc.Replay.N, kind: str("kind"), size: num("size"), count: num("count"), script: str("script"), match: str("match"), typ: str("type"), adverse: num("adverse"), dead: str("dead"), prechurn: num("prechurn")}
+				one.spread, _ = f["spread"].(bool)
 				cases = []c17Case{one, one}
 			}
 		}
